@@ -12,6 +12,8 @@ import Pyiga.Proofs.HierRefine
 import Pyiga.Proofs.HierOrder
 import Pyiga.Proofs.HierTP
 import Pyiga.Proofs.HierTrunc
+import Pyiga.Proofs.HierPU
+import Pyiga.Proofs.HierTwoScale
 
 namespace Pyiga.Props.C04
 open Pyiga.Hier Pyiga.Index
@@ -241,6 +243,77 @@ example : StrictBlock (R := Int) (N := 3) 2 (fun i j => if i.val = 2 ∧ j.val <
   by_cases hc : i.val = 2 ∧ j.val < 2
   · omega
   · simp [hc] at h
+
+/-! ## truncated basis: partition of unity and non-negativity -/
+
+/-- **children of deactivated functions stay in the refinement region.**  After any history, every
+child `g` (non-zero of the two-scale relation, `HMesh.function_children`) of a deactivated function
+`f` of level `lv` is active or deactivated on level `lv+1`.  This is the structural hypothesis
+`hstar` of `thb_partition_of_unity`, derived from `selection_rule`, `tiling` and the two-scale
+support inclusion `tp_child_support_sub`. -/
+theorem children_of_deactivated (kvs : Mesh) (d : Option Nat) (hg : GoodMesh kvs) {s : HSpace}
+    (h : Reachable kvs d s) (lv : Nat) (hlv : lv + 1 < s.numlevels) (f g : Idx)
+    (hf : f ∈ (s.level lv).deactfun) (hgc : g ∈ s.functionChildren lv [f]) :
+    g ∈ (s.level (lv + 1)).actfun ∨ g ∈ (s.level (lv + 1)).deactfun := by
+  have hw := reachable_wf kvs d hg h
+  have hm : s.mesh lv = meshAt kvs lv := by rw [← hw.1]; rfl
+  have hsel := selection_rule kvs d hg h lv (by omega) f
+  obtain ⟨hvf, _, hdeact⟩ := hsel.2.1 hf
+  have hgc' : g ∈ cart (List.zipWith (fun kv j => kv.funChildren j) (meshAt kvs lv) f) := by
+    simpa [HSpace.functionChildren, hm] using hgc
+  obtain ⟨hvg, hsub⟩ := tp_child_support_sub kvs hg.1 lv f g hvf hgc'
+  have L := tp_laws kvs hg.1 hg.2
+  have hcov : ∀ c ∈ supp kvs (lv + 1) g, c ∈ (s.level (lv + 1)).act ∨ c ∈ (s.level (lv + 1)).deact := by
+    intro c hc
+    refine ((tiling kvs d hg h).2.1 lv hlv c).2 ⟨L.support_valid (lv + 1) g c hvg hc, hdeact _ (hsub c hc)⟩
+  have hsel' := selection_rule kvs d hg h (lv + 1) hlv g
+  by_cases hall : ∀ c ∈ supp kvs (lv + 1) g, c ∈ (s.level (lv + 1)).deact
+  · exact Or.inr (hsel'.2.2 ⟨hvg, hcov, hall⟩)
+  · exact Or.inl (hsel'.1.2 ⟨hvg, hcov, hall⟩)
+
+/-- **THB partition of unity and non-negativity (matrix level).**  Over any ordered commutative
+ring, for any number of levels `L`, tensor-product prolongations `P k` as parameters with
+non-negative entries and unit row sums, `F k`/`G k` the (raveled) active/deactivated functions:
+if every level-0 function is active or deactivated, every child of a deactivated function is active
+or deactivated one level up (`children_of_deactivated`) and nothing is deactivated on the finest
+level (`tiling`), then all entries of the blocks `M` of `represent_fine(truncate=True)` are `≥ 0` and
+every row of the assembled matrix sums to one (`blockSum … = 1`). -/
+theorem thb_partition_of_unity {R : Type} [CommRing R] [LinearOrder R] [IsStrictOrderedRing R]
+    (N : ℕ → ℕ) (P : ℕ → ℕ → ℕ → R) (F G : ℕ → Finset ℕ) (L : ℕ)
+    (hP : ∀ k i j, 0 ≤ P k i j)
+    (hrow : ∀ k i, i < N (k + 1) → ∑ j ∈ Finset.range (N k), P k i j = 1)
+    (h0 : ∀ i, i < N 0 → i ∈ F 0 ∨ i ∈ G 0)
+    (hstar : ∀ k i j, i < N (k + 1) → j < N k → P k i j ≠ 0 → j ∈ G k → i ∈ F (k + 1) ∨ i ∈ G (k + 1))
+    (htop : G L = ∅) :
+    (∀ d r j, 0 ≤ PU.M N P F L d r j) ∧ (∀ r, r < N L → PU.blockSum N P F L r L = 1) :=
+  ⟨PU.M_nonneg N P F L hP, fun r hr => by
+    rw [PU.blocks_rowsum N P F L r hr]
+    exact PU.thb_partition_of_unity N P F G L hrow h0 hstar htop r hr⟩
+
+/-- non-vacuity of `thb_partition_of_unity`: one coarse function, deactivated, with two active
+children (`P = [[1],[1]]`). -/
+example :
+    let N : ℕ → ℕ := fun k => if k = 0 then 1 else if k = 1 then 2 else 0
+    let F : ℕ → Finset ℕ := fun k => if k = 1 then {0, 1} else ∅
+    let G : ℕ → Finset ℕ := fun k => if k = 0 then {0} else ∅
+    ∀ r, r < N 1 → PU.blockSum N (fun _ _ _ => (1 : Int)) F 1 r 1 = 1 := by
+  intro N F G
+  refine (thb_partition_of_unity N (fun _ _ _ => (1 : Int)) F G 1 (fun _ _ _ => by decide) ?_ ?_ ?_ ?_).2
+  · intro k i hi
+    match k with
+    | 0 => simp [N]
+    | k + 1 => simp [N] at hi
+  · intro i hi
+    have : i = 0 := by simp [N] at hi; exact hi
+    subst this; right; simp [G]
+  · intro k i j hi hj _ hG
+    match k with
+    | 0 =>
+      left
+      have : i < 2 := by simpa [N] using hi
+      simp [F]; omega
+    | k + 1 => simp [G] at hG
+  · simp [G]
 
 /-! ## clauses stated but not proved in Lean (decided per instance by the harness oracle) -/
 
